@@ -136,6 +136,17 @@ unknown_field:
 			if (itr->_ftype != FieldTrait::ft_Length || tv == Common_BodyLength) // this type expects next field to be data
 				break;
 
+			// a Length field that is not followed by its data field (tag + 1) is an ordinary number, e.g. MaxMessageSize
+			{
+				unsigned ntv(0), jj(s_offset);
+				for (; jj < fsize && isdigit(dptr[jj]) && ntv < 0x10000; ++jj)
+					ntv = ntv * 10 + (dptr[jj] - '0');
+				Presence::const_iterator ditr(ntv == tv + 1u ? _fp.get_presence().find(static_cast<unsigned short>(ntv)) : _fp.get_presence().end());
+				if (jj >= fsize || dptr[jj] != default_assignment_separator
+					|| ditr == _fp.get_presence().end() || ditr->_ftype != FieldTrait::ft_data)
+						break;
+			}
+
 			const unsigned val_sz(fast_atoi<unsigned>(val));
 			if(val_sz > FIX8_MAX_FLD_LENGTH - 1)
 				throw f8Exception("Value size too large");
